@@ -350,6 +350,16 @@ class ExprRewriter(ast.NodeTransformer, EmitterMixin):
         ret_as_call: ast.Call = node
         ret: Union[ast.Call, ast.IfExp] = node
         orig_node_id = id(node)
+        orig_func = node.func
+        if (
+            isinstance(orig_func, ast.Attribute)
+            and getattr(orig_func, "end_lineno", None) is not None
+            and node.lineno != orig_func.end_lineno
+        ):
+            # the compiler attributes a call `obj.meth(...)` that spans several lines to the line of `.meth`
+            # (tracebacks, line events); once the callee is wrapped it is no longer an attribute, so do it here
+            node.lineno = orig_func.end_lineno
+            node.col_offset = max(orig_func.end_col_offset - len(orig_func.attr), 0)
 
         with self.attrsub_context(ret_as_call):
             if isinstance(ret_as_call.func, ast.Attribute):
